@@ -64,7 +64,20 @@ func drain(l *grammar.LLk) {
 	})
 }
 
-func parseOn(p *grammar.Parser, text string) (verdict, *semantic.Statement) {
+// stall reports parses that do not return (set in main).
+var stall *common.StallWatch
+
+func parseOn(p *grammar.Parser, text string) (v verdict, st *semantic.Statement) {
+	if stall == nil {
+		return parseOn0(p, text)
+	}
+	stall.Do(func() common.Failure {
+		return common.Failure{Check: "sequence", Class: "statement", Case: seqCase{Text: text, Origin: "stall"}, Detail: fmt.Sprintf("lexing / parsing %q has not returned after two minutes", text)}
+	}, func() { v, st = parseOn0(p, text) })
+	return v, st
+}
+
+func parseOn0(p *grammar.Parser, text string) (verdict, *semantic.Statement) {
 	st := &semantic.Statement{}
 	var v verdict
 	var llk *grammar.LLk
@@ -755,6 +768,7 @@ func main() {
 		return ok, d
 	})
 	r.MaybeReplay()
+	stall = common.NewStallWatch(r, 2*time.Minute)
 
 	an := table.Analyse()
 	if len(an.Undefined) > 0 || len(an.LeftRecursive) > 0 {
